@@ -4,7 +4,7 @@
 N=$1; P=$2; T=${3:-quick}; W=/tmp/try-$N
 git -C /repo worktree remove --force $W 2>/dev/null
 git -C /repo worktree add --detach $W HEAD >/dev/null 2>&1 || exit 2
-(cd $W && git apply /verif/seeded/$N/patch.diff) || { echo "PATCH DOES NOT APPLY to HEAD"; git -C /repo worktree remove --force $W; exit 2; }
+(cd $W && git apply ${PATCH:-/verif/seeded/$N/patch.diff}) || { echo "PATCH DOES NOT APPLY to HEAD"; git -C /repo worktree remove --force $W; exit 2; }
 cd /verif && VERIF_REPO=$W ./check $P --tier $T > /verif/wip/seeds/try-$N-$P.out 2>&1; rc=$?
 echo "check $P on seed $N: exit=$rc"; grep -E "^(VIOLATION|KNOWN-FINDING|OK)" /verif/wip/seeds/try-$N-$P.out | head -5; grep "detail:" /verif/wip/seeds/try-$N-$P.out | head -3
 git -C /repo worktree remove --force $W
